@@ -296,8 +296,7 @@ Definition deviation_witnesses : list (string * list value) := [
   ("~:[f~;t~]", [VList []]);                                          (* the empty list object is not nil *)
   ("~:A", [VList []]);
   ("~@[x~A~]y", [VList []]);
-  ("~?", [VStr (tx "x"); VNil]);
-  ("~VD", [VInt 3; VInt 1])                                           (* V *)
+  ("~?", [VStr (tx "x"); VNil])
 ]%Z.
 Lemma deviations_hold : forallb deviates deviation_witnesses = true.
 Proof. vm_compute. reflexivity. Qed.
